@@ -4,24 +4,25 @@ import QuickAdd.Gen.RegexTable
 namespace QuickAdd
 
 def fieldRange (n : String) : Option (Int × Int) :=
-  if n == "day" then some (1, 31) else if n == "month" then some (1, 12) else if n == "hour" then some (0, 23) else if n == "minute" then some (0, 59) else none
+  if n == "day" then some (1, 31) else if n == "month" then some (1, 12) else if n == "hour" then some (0, 23) else if n == "minute" then some (0, 59)
+  else if n == "year" then some (0, 2999) else none
 
 def tableDigitCheck : Bool :=
   Gen.table.all fun p => p.names.all fun (n, i) => match fieldRange n with
-    | some (lo, hi) => groupCheck Gen.rxTabs p.rx i (intInRange lo hi)
+    | some (lo, hi) => groupCheckQ Gen.rxTabs canonDigit p.rx i (intInRange lo hi)
     | none => true
 
 set_option maxRecDepth 100000 in
-/-- kernel evaluation over the regenerated table: all words of the finite language of every day/month/hour/minute group body -/
+/-- kernel evaluation over the regenerated table: all words (modulo the decimal value of each digit, `canonDigit`) of the finite language of every day/month/hour/minute/year group body -/
 theorem digit_groups_in_range : tableDigitCheck = true := by decide +kernel
 
-/-- for every shipped pattern, every text and every match: what a day/month/hour/minute group captured is in range -/
+/-- for every shipped pattern, every text and every match: what a day/month/hour/minute/year group captured is in range (a year group: at most 2999) -/
 theorem capture_in_range (p : Gen.Pat) (hp : p ∈ Gen.table) (n : String) (i : Nat) (hn : (n, i) ∈ p.names) (lo hi : Int) (hf : fieldRange n = some (lo, hi))
     (txt : List Nat) (m : Nat × Nat × Caps) (hm : m ∈ findAll Gen.rxTabs p.rx txt) (s e : Nat) (hc : (i, s, e) ∈ m.2.2) :
     intInRange lo hi ((txt.drop s).take (e - s)) = true := by
   have h1 := List.all_eq_true.mp digit_groups_in_range p hp
   have h2 := List.all_eq_true.mp h1 (n, i) hn
   simp only [hf] at h2
-  exact groupCheck_sound Gen.rxTabs txt p.rx i _ h2 m.2.2 (findAll_caps Gen.rxTabs p.rx txt m hm) s e hc
+  exact intInRange_canon lo hi _ (groupCheckQ_sound Gen.rxTabs canonDigit txt p.rx i _ h2 m.2.2 (findAll_caps Gen.rxTabs p.rx txt m hm) s e hc)
 
 end QuickAdd
